@@ -572,6 +572,23 @@ mod exec {
         }
     }
 
+    // The read adapters must close their stream before Popen::drop() waits
+    // for the process: a process blocked writing output that nobody will read
+    // any more never exits, so the wait would deadlock on our own pipe.  With
+    // the read end closed the process receives SIGPIPE (or EPIPE) instead.
+
+    impl Drop for ReadOutAdapter {
+        fn drop(&mut self) {
+            self.0.stdout.take();
+        }
+    }
+
+    impl Drop for ReadErrAdapter {
+        fn drop(&mut self) {
+            self.0.stderr.take();
+        }
+    }
+
     // We must implement Drop in order to close the stream.  The typical
     // use case for stream_stdin() is a process that reads something from
     // stdin.  WriteAdapter going out of scope invokes Popen::drop(),
@@ -1138,6 +1155,15 @@ mod pipeline {
         fn read(&mut self, buf: &mut [u8]) -> io::Result<usize> {
             let last = self.0.last_mut().unwrap();
             last.stdout.as_mut().unwrap().read(buf)
+        }
+    }
+
+    impl Drop for ReadPipelineAdapter {
+        // the same rationale as Drop for ReadOutAdapter
+        fn drop(&mut self) {
+            if let Some(last) = self.0.last_mut() {
+                last.stdout.take();
+            }
         }
     }
 
